@@ -102,6 +102,42 @@ Proof.
   - intro H. exists x. split; [exact H | apply str_eqb_refl].
 Qed.
 
+
+(* ---------- generic agreement with unordered collections ----------
+   [L [A (-7); L items]] marks a collection whose order is not part of the
+   observation: such collections are compared as multisets (recursively).
+   Fuel bounds the nesting depth; a depth beyond the fuel counts as disagreement. *)
+Fixpoint sx_agree (fuel : nat) (a b : sx) {struct fuel} : bool :=
+  match fuel with
+  | O => false
+  | S f =>
+      match a, b with
+      | A x, A y => Z.eqb x y
+      | L [A (-7)%Z; L xs], L [A (-7)%Z; L ys] =>
+          (fix ms (xs ys : list sx) {struct xs} : bool :=
+             match xs with
+             | [] => match ys with [] => true | _ => false end
+             | x :: xs' =>
+                 (fix pick (pre ys : list sx) {struct ys} : bool :=
+                    match ys with
+                    | [] => false
+                    | y :: ys' => if sx_agree f x y then ms xs' (rev_append pre ys')
+                                  else pick (y :: pre) ys'
+                    end) [] ys
+             end) xs ys
+      | L xs, L ys =>
+          (fix go (xs ys : list sx) {struct xs} : bool :=
+             match xs, ys with
+             | [], [] => true
+             | x :: xs', y :: ys' => sx_agree f x y && go xs' ys'
+             | _, _ => false
+             end) xs ys
+      | _, _ => false
+      end
+  end.
+Definition sx_agree_default (a b : sx) : bool := sx_agree 40 a b.
+Definition mset (l : list sx) : sx := L [A (-7)%Z; L l].
+
 (* The correspondence driver: a case is (input, implementation-output);
    [mismatches] returns the indices on which the model's verdict differs.
    [agree] is the property-specific comparison (exact, set, multiset...). *)
